@@ -24,7 +24,7 @@ LEVEL_TEXT = ("The two runners are compared event-for-event on every generated p
 LEVEL_NOTE = "trusted: vf/sched.py recorder; asyncio's default event loop; non-real-time mode only"
 ASSUMPTIONS = ["non-real-time mode (the statement's scope)", "a real SIGINT is not delivered (asyncio.run installs its own handler); a KeyboardInterrupt raised while a doer has control is compared"]
 NSHARDS = {"quick": 8, "thorough": 16}
-REQUIRE = {"kbint_in_doer_pairs": 60, "runtime_extend_remove_pairs": 200, "doers_passed_as_tuple_or_generator": 80, "pairs_compared": 1200, "events_compared": 50000, "exception_exits_compared": 150,
+REQUIRE = {"second_runs_of_same_doist_compared": 150, "second_runs_ended_by_a_limit": 40, "kbint_in_doer_pairs": 60, "runtime_extend_remove_pairs": 200, "doers_passed_as_tuple_or_generator": 80, "pairs_compared": 1200, "events_compared": 50000, "exception_exits_compared": 150,
            "limit_exits_compared": 300, "with_foreign_task": 400}
 
 
@@ -64,7 +64,23 @@ def cases(tier, seed, shard, nshards):
                     caller.setdefault("acts", {}).setdefault(str(k), []).append(act)
                 if prog["limit"] is None and gen_sched.needs_limit(prog["doers"] + pool):
                     prog["limit"] = prog["tock"] * 10 if dyadic else 2.05
-        yield {"prog": prog, "fault": fault, "foreign": rng.random() < 0.5}
+        second = None
+        if fault is None and not prog.get("pool") and rng.random() < 0.35:
+            # the same Doist object run a second time: what the first call left in it (a limit given in the call, the
+            # tyme reached, the doers) governs the second call identically under both runners
+            prog["do_args"] = True
+            prog["doers_as"] = "list"
+            if rng.random() < 0.7:
+                prog["limit"] = prog["tock"] * rng.choice([2, 3, 5, 8])      # first call's own limit (often cuts run 1)
+            prog["ctor_limit"] = rng.choice([None, None, prog["tock"] * 40])
+            second = {}
+            if rng.random() < 0.25:
+                second["limit"] = prog["tock"] * rng.choice([4, 12])
+            if rng.random() < 0.25:
+                second["tyme"] = rng.choice([0.0, 8.0])
+            if gen_sched.needs_limit(prog["doers"]) and prog["limit"] is None and prog["ctor_limit"] is None:
+                prog["limit"] = prog["tock"] * 6
+        yield {"prog": prog, "fault": fault, "foreign": rng.random() < 0.5, "second": second}
 
 
 def canon(run):
@@ -74,6 +90,21 @@ def canon(run):
             break
         out.append((kind, did, t, tuple(sorted((k, repr(v)) for k, v in info.items()))))
     return out
+
+
+def differ(r1, r2, t1, t2):
+    if r1.result != r2.result:
+        return ("result", f"do: {r1.result} ado: {r2.result}")
+    if t1 != t2:
+        i = next((j for j, (a, b) in enumerate(zip(t1, t2)) if a != b), min(len(t1), len(t2)))
+        return ("trace", f"first difference at event #{i}: do {t1[i:i+2]} ado {t2[i:i+2]} (lengths {len(t1)}/{len(t2)})")
+    if r1.doist.done != r2.doist.done or r1.doist.tyme != r2.doist.tyme:
+        return ("end-state", f"do done={r1.doist.done} tyme={r1.doist.tyme}; ado done={r2.doist.done} tyme={r2.doist.tyme}")
+    f1 = {d: repr(r1.done_of(d)) for d in r1.objs}
+    f2 = {d: repr(r2.done_of(d)) for d in r2.objs}
+    if f1 != f2:
+        return ("done-flags", f"do {f1} ado {f2}")
+    return None
 
 
 def run_case(case, ctx):
@@ -103,23 +134,27 @@ def run_case(case, ctx):
         ctx.count("exception_exits_compared")
     elif prog.get("limit") and r1.doist.done is False:
         ctx.count("limit_exits_compared")
-    bad = None
-    if r1.result != r2.result:
-        bad = ("result", f"do: {r1.result} ado: {r2.result}")
-    elif t1 != t2:
-        i = next((j for j, (a, b) in enumerate(zip(t1, t2)) if a != b), min(len(t1), len(t2)))
-        bad = ("trace", f"first difference at event #{i}: do {t1[i:i+2]} ado {t2[i:i+2]} (lengths {len(t1)}/{len(t2)})")
-    elif r1.doist.done != r2.doist.done or r1.doist.tyme != r2.doist.tyme:
-        bad = ("end-state", f"do done={r1.doist.done} tyme={r1.doist.tyme}; ado done={r2.doist.done} tyme={r2.doist.tyme}")
-    else:
-        f1 = {d: repr(r1.done_of(d)) for d in r1.objs}
-        f2 = {d: repr(r2.done_of(d)) for d in r2.objs}
-        if f1 != f2:
-            bad = ("done-flags", f"do {f1} ado {f2}")
+    bad = differ(r1, r2, t1, t2)
     if bad:
         ctx.violation("ado-differs-from-do:" + bad[0], bad[1],
                       trace=["DO"] + sched.compact(r1, 150) + ["ADO"] + sched.compact(r2, 150))
         return
+    if case.get("second") is not None and r1.result[0] == "return":
+        first = (sched.compact(r1, 60), sched.compact(r2, 60))
+        kw = case["second"]
+        r1 = sched.execute(p1, max_cycles=budget, again=r1, again_kwa=kw)
+        r2 = sched.execute(p2, max_cycles=budget, again=r2, again_kwa=kw, foreign_task=case.get("foreign", False))
+        ctx.evaluations += 1
+        ctx.count("second_runs_of_same_doist_compared")
+        if r1.result == ("return", False):
+            ctx.count("second_runs_ended_by_a_limit")
+        t1, t2 = canon(r1), canon(r2)
+        ctx.count("events_compared", len(t1))
+        bad = differ(r1, r2, t1, t2)
+        if bad:
+            ctx.violation("ado-differs-from-do:second-run-of-same-doist:" + bad[0], f"second call arguments {kw}: " + bad[1],
+                          trace=["DO#1"] + first[0] + ["ADO#1"] + first[1] + ["DO#2"] + sched.compact(r1, 120) + ["ADO#2"] + sched.compact(r2, 120))
+            return
     ncyc = sum(1 for e in r1.trace if e[0] == "cycle")
     doers = {e[1] for e in r1.trace if e[0] == "recur"}
     forced = [e[1] for e in r1.trace if e[0] == "cease"]
